@@ -330,7 +330,7 @@ func (r *limRig) followUp(sid string, s *sessRec) bool {
 	if resp.StatusCode != 200 {
 		return false
 	}
-	return s.waitFor(3*time.Second, func() bool {
+	return s.waitFor(8*time.Second, func() bool {
 		for _, m := range s.msgs {
 			if m == 3 {
 				return true
@@ -455,7 +455,7 @@ func (r *limRig) rawPost(size int64, chunked, endless, jsonp bool) (c limCase) {
 		c.Size = atomic.LoadInt64(&sent)
 	}
 	if c.Status != 200 {
-		s.waitFor(3*time.Second, func() bool { return s.closed })
+		s.waitFor(8*time.Second, func() bool { return s.closed })
 	}
 	if v, ok := r.bodyRead.Load(vreq); ok {
 		c.Read = atomic.LoadInt64(v.(*int64))
@@ -529,7 +529,7 @@ func (r *limRig) rawWS(size int64, frag bool) (c limCase) {
 	}
 	// follow-up (may fail when the server has closed the connection: that is the observation)
 	conn.Write(ctx, websocket.MessageText, []byte("4ok"))
-	s.waitFor(5*time.Second, func() bool {
+	s.waitFor(10*time.Second, func() bool {
 		if s.closed {
 			return true
 		}
@@ -692,7 +692,7 @@ func (r *limRig) eioCase(tr string, upgrade bool, dir string, size int64, binary
 		sr.sock.Send(msgPacket(size, binary))
 		sr.sock.Send(follow)
 	}
-	recv.waitFor(6*time.Second, func() bool { return recv.closed || hasFollow(recv.msgs) })
+	recv.waitFor(10*time.Second, func() bool { return recv.closed || hasFollow(recv.msgs) })
 	if recv.closed {
 		// let a delivery that raced with the close show up
 		time.Sleep(30 * time.Millisecond)
@@ -853,14 +853,13 @@ func limitsMain(args []string) error {
 				defer wg.Done()
 				defer func() { <-sem }()
 				c := j()
-				if c.Err == "" && !conclusive(c) {
+				for try := 0; try < 2 && c.Err == "" && !conclusive(c); try++ {
 					// neither a clean delivery nor a clean rejection (e.g. a wait ran out on a loaded
-					// machine): observe once more; a defect that reproduces stays visible
-					c.Retried = true
+					// machine): observe again; a defect that reproduces stays visible
 					if c2 := j(); c2.Err == "" {
-						c2.Retried = true
 						c = c2
 					}
+					c.Retried = true
 				}
 				if c.Err != "" {
 					// environmental failure (port, timeout): one retry, never for a completed observation
